@@ -52,10 +52,16 @@ def collapse(evs):
     return out
 
 
+ATTR_DIR = fsops.SENT + "A"
+
+
 def sentinel_ops(n):
+    # (the attribute change is made on a directory that both watches have known from their start, not on the directory
+    # just created: an attribute change of a directory is reported through its parent's watch and through its own, and
+    # whether the own watch of a brand-new directory is already in place is a race the two emitters may lose differently)
     sd, sd2, sf, sf2, sg, sd3 = (f"{fsops.SENT}{n}{x}" for x in ("d", "e", "f", "g", "h", "i"))
     return [
-        ("mkdir", sd), ("rename", sd, sd2), ("rmdir", sd2), ("mkdir", sd3), ("chmod", sd3),
+        ("mkdir", sd), ("rename", sd, sd2), ("rmdir", sd2), ("mkdir", sd3), ("chmod", ATTR_DIR),
         ("create", sf), ("write", sf), ("rename", sf, sf2), ("unlink", sf2), ("create", sg), ("create", sg + "2"), ("read", sg),
     ], sg  # fmt: skip
 
@@ -70,9 +76,13 @@ def run_case(case):
     s = fsops.Session(cfg, case["init"])
     try:
         rec = bool(cfg.get("recursive", True))
+        os.mkdir(os.path.join(s.root, ATTR_DIR))
+        s.drain()  # the first watch knows the directory; the second one finds it in its initial walk
         frec = fsops.Recorder()
         s.obs.schedule(frec.make_handler(), s.given, recursive=rec, event_filter=list(classes), **({"follow_symlink": True} if cfg.get("follow_symlink") else {}))
-        upos = fpos = 0
+        with s.rec.cond:
+            upos = len(s.rec.events)  # what the first watch saw before the second one existed is not compared
+        fpos = 0
         nwin = 0
         info = {"windows": 0}
         ops = [op for b in case["bursts"] for op in b if op[0] != "sleep"]
@@ -121,7 +131,7 @@ def run_case(case):
                 for p in (e.src_path, e.dest_path):
                     if p:
                         r = s.norm(p)
-                        if r is not None and r.startswith(prefix):
+                        if r is not None and (r.startswith(prefix) or r == ATTR_DIR):
                             return True
                 return False
 
